@@ -15,8 +15,9 @@ Env = Tuple[Tuple[str, Optional[bool]], ...]
 
 
 def flag_vars(cfg: CFG) -> Set[str]:
-    """Locals that are only ever assigned boolean literals (DESIGN 2.2, flag
-    sensitivity)."""
+    """Locals whose truth value is tracked along paths (DESIGN 2.2, flag sensitivity): names that
+    are tested as a bare name somewhere (or copied into such a name) and whose truthiness cannot
+    change without a re-assignment.  See also `nullable_vars`."""
     if '_flag_vars' in cfg.__dict__:
         return cfg.__dict__['_flag_vars']
     # locals (and parameters) that are tested as a bare name somewhere, or copied into such a name
@@ -51,12 +52,81 @@ def flag_vars(cfg: CFG) -> Set[str]:
     for nn in cfg.nodes:
         if nn.meta.get('inlined') and nn.ast is not None and nn.kind in ('call', 'store_sub', 'del_sub', 'load_sub'):
             scan(nn.ast)
-    # not if declared nonlocal/global or captured & written by a nested function
+    out -= _written_by_nested(cfg)
+    cfg.__dict__['_flag_vars'] = out
+    return out
+
+
+def _written_by_nested(cfg: CFG) -> Set[str]:
+    out: Set[str] = set()
     for ch in cfg.scope.children:
         for nn in own_nodes(ch.node):
             if isinstance(nn, ast.Nonlocal):
-                out -= set(nn.names)
-    cfg.__dict__['_flag_vars'] = out
+                out |= set(nn.names)
+    return out
+
+
+def _none_test(t: ast.AST) -> Optional[Tuple[str, bool]]:
+    """(name, True) for `name is None`, (name, False) for `name is not None`."""
+    if isinstance(t, ast.Compare) and len(t.ops) == 1 and isinstance(t.left, ast.Name) \
+            and isinstance(t.comparators[0], ast.Constant) and t.comparators[0].value is None:
+        if isinstance(t.ops[0], ast.Is):
+            return t.left.id, True
+        if isinstance(t.ops[0], ast.IsNot):
+            return t.left.id, False
+    return None
+
+
+def _isinstance_test(t: ast.AST) -> Optional[Tuple[str, str]]:
+    """(name, class name) for `isinstance(name, Class)`."""
+    if isinstance(t, ast.Call) and isinstance(t.func, ast.Name) and t.func.id == 'isinstance' and len(t.args) == 2 \
+            and not t.keywords and isinstance(t.args[0], ast.Name) and isinstance(t.args[1], ast.Name):
+        return t.args[0].id, t.args[1].id
+    return None
+
+
+def nullable_vars(cfg: CFG) -> Set[str]:
+    """Locals tested for `is None` / `isinstance(x, RecordClass)` somewhere: which object a name is bound to
+    cannot change without a re-assignment, so these tests are tracked along paths as well."""
+    if '_nullable_vars' in cfg.__dict__:
+        return cfg.__dict__['_nullable_vars']
+    out: Set[str] = set()
+
+    def scan_test(t):
+        for x in ast.walk(t):
+            nt = _none_test(x) or _isinstance_test(x)
+            if nt:
+                out.add(nt[0])
+    for n in cfg.nodes:
+        if n.kind == 'branch':
+            scan_test(n.meta['test'])
+        elif n.kind == 'store_name' and n.meta.get('value') is not None:
+            scan_test(n.meta['value'])
+    for n in cfg.nodes:
+        if n.kind == 'del_name':
+            out.discard(n.meta['name'])
+    out -= _written_by_nested(cfg)
+    cfg.__dict__['_nullable_vars'] = out
+    return out
+
+
+def _tracked(cfg: CFG) -> Tuple[Set[str], Set[str]]:
+    return flag_vars(cfg), nullable_vars(cfg)
+
+
+def _atom_sites(cfg: CFG) -> Dict[int, int]:
+    """{id(test ast of a branch node): id of the tracked store whose value expression contains it}: the
+    outcome of such a branch is remembered until the store, which can then evaluate compound values
+    (`alive = not l.is_closed() and l.is_running()`, `owner = marker is None`) exactly."""
+    if '_atom_sites' in cfg.__dict__:
+        return cfg.__dict__['_atom_sites']
+    flags, nulls = _tracked(cfg)
+    out: Dict[int, int] = {}
+    for n in cfg.nodes:
+        if n.kind == 'store_name' and n.meta['name'] in flags and isinstance(n.meta.get('value'), (ast.BoolOp, ast.UnaryOp, ast.IfExp)):
+            for x in ast.walk(n.meta['value']):
+                out[id(x)] = n.id
+    cfg.__dict__['_atom_sites'] = out
     return out
 
 
@@ -83,6 +153,10 @@ def _env_set(env: Env, k: str, v: Optional[bool]) -> Env:
     return tuple(sorted(d.items()))
 
 
+def _env_del(env: Env, pred) -> Env:
+    return tuple(kv for kv in env if not pred(kv[0]))
+
+
 State = Tuple[int, Env, int]
 
 
@@ -93,6 +167,203 @@ def _event_recv(cfg: CFG, node: Node, attrs) -> Optional[Tuple[str, str]]:
         rp = cfg.res.path(a.func.value)
         if rp in attrs:
             return rp, a.func.attr
+    return None
+
+
+# ---- tokens ---------------------------------------------------------------------------------------
+#   ('c', bool)        a constant truth value
+#   ('none',)          the constant None
+#   ('obj', node id[, class])   a freshly built object (tuple display, record / class constructor): not None
+#   ('v', node id)     the unknown value stored at that node
+#   ('p', name)        the unknown value of a parameter
+#   ('n', tok)         logical negation of tok
+#   ('isnone', tok)    the truth value of `tok is None`
+# decisions taken on the way are kept in the environment under '#<token>' (truthiness) and '?<token>' (is None)
+
+def _tok_of(cfg: CFG, env: Env, name: str):
+    tok = _env_get(env, name)
+    if tok is None and name in cfg.scope.params:
+        tok = ('p', name)
+    return tok
+
+
+def _decide(env: Env, tok, want: bool) -> Optional[Env]:
+    """Environment after learning that *tok* is truthy (want) / falsy; None if that contradicts the path."""
+    base, neg = _strip_neg(tok)
+    want = want ^ neg
+    if base[0] == 'c':
+        return env if base[1] == want else None
+    if base[0] == 'none':
+        return env if not want else None
+    if base[0] == 'obj' and len(base) > 2 and base[2] is not None:
+        return env if want else None                  # a non-empty tuple / record is truthy
+    if base[0] == 'isnone':
+        inner = base[1]
+        ib, ineg = _strip_neg(inner)
+        if ineg or ib[0] == 'c':
+            return env if not want else None           # a boolean is never None
+        if ib[0] == 'none':
+            return env if want else None
+        if ib[0] == 'obj':
+            return env if not want else None
+        key = '?' + repr(ib)
+        prior = _env_get(env, key)
+        if prior is not None:
+            return env if prior == want else None
+        env = _env_set(env, key, want)
+        if want:
+            # None is falsy
+            tk = '#' + repr(ib)
+            pt = _env_get(env, tk)
+            if pt is True:
+                return None
+            env = _env_set(env, tk, False)
+        return env
+    key = '#' + repr(base)
+    prior = _env_get(env, key)
+    if prior is not None:
+        return env if prior == want else None
+    env = _env_set(env, key, want)
+    if want and base[0] in ('v', 'p'):
+        nk = '?' + repr(base)
+        pn = _env_get(env, nk)
+        if pn is True:
+            return None
+        env = _env_set(env, nk, False)
+    return env
+
+
+def _known(env: Env, tok) -> Optional[bool]:
+    """Truth value of *tok* if the path already determines it."""
+    base, neg = _strip_neg(tok)
+    if base[0] == 'c':
+        return base[1] ^ neg
+    if base[0] == 'none':
+        return False ^ neg
+    if base[0] == 'obj' and len(base) > 2 and base[2] is not None:
+        return True ^ neg
+    if base[0] == 'isnone':
+        ib, ineg = _strip_neg(base[1])
+        if ineg or ib[0] == 'c' or ib[0] == 'obj':
+            return False ^ neg
+        if ib[0] == 'none':
+            return True ^ neg
+        v = _env_get(env, '?' + repr(ib))
+        return None if v is None else v ^ neg
+    v = _env_get(env, '#' + repr(base))
+    return None if v is None else v ^ neg
+
+
+def _value_token(cfg: CFG, env: Env, node: Node, v: Optional[ast.AST], flags: Set[str], nulls: Set[str]):
+    """Token of the value expression *v* stored at *node*."""
+    fresh = ('v', node.id)
+    if v is None:
+        return fresh
+    if isinstance(v, ast.Constant):
+        if v.value is None:
+            return ('none',)
+        if isinstance(v.value, (bool, int, float, str, bytes)):
+            return ('c', bool(v.value))
+        return fresh
+    if isinstance(v, ast.Name):
+        if v.id in flags or v.id in nulls:
+            return _tok_of(cfg, env, v.id) or fresh
+        return fresh
+    if isinstance(v, ast.UnaryOp) and isinstance(v.op, ast.Not):
+        k = _eval_bool(cfg, env, v, flags, nulls)
+        if k is not None:
+            return ('c', k)
+        if isinstance(v.operand, ast.Name) and (v.operand.id in flags):
+            src = _tok_of(cfg, env, v.operand.id) or fresh
+            return ('n', src)
+        nt = _none_test(v.operand)
+        if nt and nt[0] in nulls:
+            t = _tok_of(cfg, env, nt[0])
+            if t is not None:
+                tk = ('isnone', t)
+                return ('n', tk) if nt[1] else tk
+        return ('n', fresh)
+    if isinstance(v, (ast.BoolOp, ast.IfExp)):
+        k = _eval_bool(cfg, env, v, flags, nulls)
+        return ('c', k) if k is not None else fresh
+    nt = _none_test(v)
+    if nt and nt[0] in nulls:
+        t = _tok_of(cfg, env, nt[0])
+        if t is not None:
+            tk = ('isnone', t)
+            kn = _known(env, tk)
+            if kn is not None:
+                return ('c', kn if nt[1] else not kn)
+            return tk if nt[1] else ('n', tk)
+        return fresh
+    it = _isinstance_test(v)
+    if it and it[0] in nulls:
+        t = _tok_of(cfg, env, it[0])
+        if t is not None:
+            b, ng = _strip_neg(t)
+            if not ng and b[0] == 'obj' and len(b) > 2 and b[2] is not None:
+                return ('c', b[2] == it[1])
+            if not ng and b[0] == 'none':
+                return ('c', False)
+        return fresh
+    if isinstance(v, ast.Tuple):
+        return ('obj', node.id, getattr(v, '_nt', 'tuple')) if v.elts else ('c', False)
+    if isinstance(v, ast.Subscript) and isinstance(v.value, ast.Name) and v.value.id in nulls \
+            and isinstance(v.slice, ast.Constant) and isinstance(v.slice.value, int):
+        # element of a record built on this path: `a, b, flag = rec` / `flag = rec[2]`
+        t = _tok_of(cfg, env, v.value.id)
+        if t is not None:
+            b, ng = _strip_neg(t)
+            if not ng and b[0] == 'obj':
+                src = cfg.nodes[b[1]].meta.get('value')
+                if isinstance(src, ast.Tuple) and -len(src.elts) <= v.slice.value < len(src.elts):
+                    el = src.elts[v.slice.value]
+                    if isinstance(el, ast.Constant):
+                        return _value_token(cfg, env, node, el, flags, nulls)
+        return fresh
+    if isinstance(v, (ast.List, ast.Dict, ast.Set, ast.ListComp, ast.DictComp, ast.SetComp, ast.GeneratorExp, ast.Lambda, ast.JoinedStr)):
+        return ('obj', node.id, None)
+    if isinstance(v, ast.Call):
+        from .model import NON_NONE_CALLS
+        if cfg.res.path(v.func) in NON_NONE_CALLS:
+            return ('obj', node.id, None)
+    return fresh
+
+
+def _eval_bool(cfg: CFG, env: Env, v: ast.AST, flags: Set[str], nulls: Set[str]) -> Optional[bool]:
+    """Truth value of a compound value expression from the outcomes of its atoms recorded on the path."""
+    if isinstance(v, ast.Constant):
+        return bool(v.value)
+    rec = _env_get(env, '%' + str(id(v)))
+    if rec is not None:
+        return rec
+    if isinstance(v, ast.UnaryOp) and isinstance(v.op, ast.Not):
+        k = _eval_bool(cfg, env, v.operand, flags, nulls)
+        return None if k is None else not k
+    if isinstance(v, ast.BoolOp):
+        is_and = isinstance(v.op, ast.And)
+        for x in v.values:
+            k = _eval_bool(cfg, env, x, flags, nulls)
+            if k is None:
+                return None
+            if k != is_and:
+                return k      # short-circuit: later operands were not evaluated
+        return is_and
+    if isinstance(v, ast.IfExp):
+        t = _eval_bool(cfg, env, v.test, flags, nulls)
+        if t is None:
+            return None
+        return _eval_bool(cfg, env, v.body if t else v.orelse, flags, nulls)
+    if isinstance(v, ast.Name) and (v.id in flags):
+        t = _tok_of(cfg, env, v.id)
+        return _known(env, t) if t is not None else None
+    nt = _none_test(v)
+    if nt and nt[0] in nulls:
+        t = _tok_of(cfg, env, nt[0])
+        if t is not None:
+            kn = _known(env, ('isnone', t))
+            if kn is not None:
+                return kn if nt[1] else not kn
     return None
 
 
@@ -110,64 +381,85 @@ def _step(cfg: CFG, flags: Set[str], node: Node, env: Env, e: Edge) -> Optional[
             rm = _event_recv(cfg, node, ev)
             if rm and rm[1] in ('set', 'clear'):
                 env = _env_set(env, '@' + rm[0], rm[1] == 'set')
-            elif rm is None:
-                info = node.meta.get('callee')
-                if info and info.get('kind') in ('package', 'user', 'unknown', 'method') and \
-                        not (isinstance(node.ast.func, ast.Attribute) and cfg.res.path(node.ast.func.value) in ev):
-                    pass
         if node.kind == 'branch' and e.label in ('true', 'false'):
             rm = _event_recv(cfg, node, ev)
             if rm and rm[1] == 'is_set':
                 val = _env_get(env, '@' + rm[0])
                 if val is not None and val != (e.label == 'true'):
                     return None
-    if not flags:
+    if flags is None:
         return env
-    # boolean locals: a value tested twice without being re-assigned gives the same answer;
+    nulls = nullable_vars(cfg)
+    if not flags and not nulls:
+        return env
+    if node.kind == 'unpack' and e.label == 'exc':
+        # unpacking a record built on this path with the right number of fields cannot fail
+        v = node.meta.get('value')
+        if isinstance(v, ast.Name) and v.id in nulls:
+            t = _tok_of(cfg, env, v.id)
+            if t is not None:
+                b, ng = _strip_neg(t)
+                if not ng and b[0] == 'obj':
+                    src = cfg.nodes[b[1]].meta.get('value')
+                    if isinstance(src, ast.Tuple) and len(src.elts) == node.meta.get('arity') \
+                            and not any(isinstance(x, ast.Starred) for x in src.elts):
+                        return None
+    # locals: a value tested twice without being re-assigned gives the same answer;
     # copies (`a = b`) and negations (`a = not b`) share the token of their source
     if node.kind == 'branch' and e.label in ('true', 'false'):
         t = node.meta['test']
+        taken = (e.label == 'true')
+        sites = _atom_sites(cfg)
+        tok = None
         if isinstance(t, ast.Name) and t.id in flags:
-            tok = _env_get(env, t.id)
-            if tok is None and t.id in cfg.scope.params:
-                tok = ('p', t.id)
-            if tok is not None:
-                base, neg = _strip_neg(tok)
-                taken = (e.label == 'true')
-                if base[0] == 'c':
-                    if (base[1] ^ neg) != taken:
-                        return None
-                else:
-                    key = '#' + repr(base)
-                    want = taken ^ neg
-                    prior = _env_get(env, key)
-                    if prior is not None and prior != want:
-                        return None
-                    env = _env_set(env, key, want)
-    if node.kind == 'store_name' and node.meta['name'] in flags and e.label not in ('exc',):
+            tok = _tok_of(cfg, env, t.id)
+        else:
+            nt = _none_test(t)
+            if nt and nt[0] in nulls:
+                base = _tok_of(cfg, env, nt[0])
+                if base is not None:
+                    tok = ('isnone', base) if nt[1] else ('n', ('isnone', base))
+            else:
+                it = _isinstance_test(t)
+                if it and it[0] in nulls:
+                    base = _tok_of(cfg, env, it[0])
+                    if base is not None:
+                        b, ng = _strip_neg(base)
+                        if not ng and b[0] == 'obj' and len(b) > 2 and b[2] is not None:
+                            tok = ('c', b[2] == it[1])
+                        elif not ng and b[0] == 'none':
+                            tok = ('c', False)
+        if tok is not None:
+            env2 = _decide(env, tok, taken)
+            if env2 is None:
+                return None
+            env = env2
+        if id(t) in sites:
+            env = _env_set(env, '%' + str(id(t)), taken)
+    if node.kind == 'store_name' and (node.meta['name'] in flags or node.meta['name'] in nulls) and e.label not in ('exc',):
         v = node.meta.get('value')
         stmt = node.meta.get('stmt')
-        if isinstance(stmt, ast.AugAssign) or (node.meta.get('inlined_param') and isinstance(v, ast.Name) and v.id == node.meta['name']):
-            tok = _env_get(env, node.meta['name']) if node.meta.get('inlined_param') else ('v', node.id)
+        name = node.meta['name']
+        if isinstance(stmt, ast.AugAssign):
+            tok = ('v', node.id)
+        elif node.meta.get('inlined_param') and isinstance(v, ast.Name) and v.id == name:
+            tok = _env_get(env, name)
             if tok is None:
                 return env
-        elif isinstance(v, ast.Constant) and isinstance(v.value, bool):
-            tok = ('c', v.value)
-        elif isinstance(v, ast.Name) and v.id in flags:
-            tok = _env_get(env, v.id) or (('p', v.id) if v.id in cfg.scope.params else ('v', node.id))
-        elif isinstance(v, ast.UnaryOp) and isinstance(v.op, ast.Not):
-            if isinstance(v.operand, ast.Name) and v.operand.id in flags:
-                src = _env_get(env, v.operand.id) or (('p', v.operand.id) if v.operand.id in cfg.scope.params else ('v', node.id))
-                tok = ('n', src)
-            else:
-                tok = ('n', ('v', node.id))
         else:
-            tok = ('v', node.id)
+            tok = _value_token(cfg, env, node, v, flags, nulls)
         base, _ = _strip_neg(tok)
-        if base == ('v', node.id):
+        while base[0] == 'isnone':
+            base, _ = _strip_neg(base[1])
+        if base[:2] == ('v', node.id) or base[:2] == ('obj', node.id):
             # a fresh value: forget what an earlier iteration decided about it
-            env = tuple(kv for kv in env if kv[0] != '#' + repr(base))
-        env = _env_set(env, node.meta['name'], tok)
+            r0 = repr(('v', node.id))
+            r1 = repr(base)
+            env = _env_del(env, lambda k: isinstance(k, str) and k[:1] in '#?' and (k[1:] == r0 or k[1:] == r1))
+        if isinstance(v, (ast.BoolOp, ast.UnaryOp, ast.IfExp)):
+            inner = {str(id(x)) for x in ast.walk(v)}
+            env = _env_del(env, lambda k: isinstance(k, str) and k[:1] == '%' and k[1:] in inner)
+        env = _env_set(env, name, tok)
     return env
 
 
@@ -184,6 +476,15 @@ def decisions(env: Env) -> Dict[tuple, bool]:
     out = {}
     for k, v in env:
         if isinstance(k, str) and k.startswith('#'):
+            out[eval(k[1:])] = v
+    return out
+
+
+def none_decisions(env: Env) -> Dict[tuple, bool]:
+    """{token: is-None} decided on the way."""
+    out = {}
+    for k, v in env:
+        if isinstance(k, str) and k.startswith('?'):
             out[eval(k[1:])] = v
     return out
 
@@ -208,7 +509,7 @@ def search(cfg: CFG, sources: Iterable[Node], targets: Optional[Set[int]] = None
     reached node ids and, if *targets* given and one is reached, the shortest
     path to it as a list of edges.  Nodes in *avoid* are not entered (sources
     themselves are exempt)."""
-    flags = flag_vars(cfg) if flag_sensitive else set()
+    flags = flag_vars(cfg) if flag_sensitive else None
     avoid = avoid or set()
     seen: Set[State] = set()
     prev: Dict[State, Tuple[Optional[State], Optional[Edge]]] = {}
